@@ -11,14 +11,19 @@
 package main
 
 import (
+	"bufio"
+	"bytes"
 	"context"
 	"encoding/json"
 	"fmt"
 	"os"
+	"os/exec"
+	"path/filepath"
 	"runtime"
 	"sort"
 	"strings"
 	"sync"
+	"sync/atomic"
 	"time"
 
 	kitctx "github.com/dapr/kit/context"
@@ -162,7 +167,8 @@ func settle() (quiet bool, alive bool, nWatchers int) {
 			return true, false, 0
 		case len(ws) == 1 && at != "" && ws[0] == "chan receive":
 			return true, true, 1
-		case len(ws) == 1 && at == "" && ws[0] == "select":
+		case len(ws) == 1 && at == "" && (ws[0] == "select" || strings.HasPrefix(ws[0], "chan receive")):
+			// blocked in `select { case <-ch: case <-p.closed: }` (a one-case select shows as a receive)
 			return true, true, 1
 		}
 		if time.Since(t0) > settleDeadline {
@@ -832,12 +838,139 @@ func genCases(tier string, seed uint64, search bool) []*Case {
 	return cs
 }
 
+// ---------------------------------------------------------------- worker processes
+//
+// Scenarios run in worker processes (this binary re-executed with C20_WORKER set): the hook
+// callback is process-global, so one process runs one scenario at a time, and a panic in the
+// pool's own goroutine — which no recover in the harness can catch — kills only the worker; the
+// parent reports it as a violation with the scenario that was running.
+
+type wireOutcome struct {
+	Index     int            `json:"i"`
+	Lines     []string       `json:"lines"`
+	Viols     [][2]string    `json:"viols,omitempty"`
+	Hits      []string       `json:"hits,omitempty"`
+	Notes     []string       `json:"notes,omitempty"`
+	SawLive   bool           `json:"live"`
+	DoneAfter bool           `json:"done_after"`
+	Tainted   bool           `json:"tainted,omitempty"` // a watcher goroutine outlived its scenario: the worker stops
+	Passes    map[string]int `json:"passes,omitempty"`
+}
+
+func workerMain(path string) {
+	verifhook.Set(hookCB)
+	b, err := os.ReadFile(path)
+	if err != nil {
+		fmt.Fprintln(os.Stderr, "worker:", err)
+		os.Exit(3)
+	}
+	var cases []*Case
+	if err := json.Unmarshal(b, &cases); err != nil {
+		fmt.Fprintln(os.Stderr, "worker:", err)
+		os.Exit(3)
+	}
+	w := bufio.NewWriter(os.Stdout)
+	enc := json.NewEncoder(w)
+	for i, c := range cases {
+		out := runCase(c)
+		wo := wireOutcome{Index: i, Lines: out.lines, Hits: out.hits, Notes: out.notes, SawLive: out.sawLive, DoneAfter: out.doneAfter}
+		for _, v := range out.viols {
+			wo.Viols = append(wo.Viols, [2]string{v.id, v.what})
+		}
+		// the next scenario needs a process without pool watchers
+		if _, _, n := settle(); n != 0 {
+			wo.Tainted = true
+		}
+		tr.mu.Lock()
+		wo.Passes = map[string]int{}
+		for k, v := range tr.passes {
+			wo.Passes[k] = v
+			tr.passes[k] = 0
+		}
+		tr.mu.Unlock()
+		enc.Encode(&wo)
+		w.Flush()
+		if wo.Tainted {
+			return
+		}
+	}
+}
+
+// badLimit: after this many failing scenarios no further chunk is started.
+const badLimit = 40
+
+type ran struct {
+	c       *Case
+	out     *wireOutcome
+	crashed string
+}
+
+// runChunk runs cases[lo:hi] in worker processes, restarting after a crash or a tainted worker.
+func runChunk(work string, id int, cases []*Case, results []ran, lo, hi int, stop *int32) {
+	gen := 0
+	for lo < hi {
+		if atomic.LoadInt32(stop) > badLimit {
+			return
+		}
+		gen++
+		path := filepath.Join(work, fmt.Sprintf("c20_chunk_%d_%d.json", id, gen))
+		b, _ := json.Marshal(cases[lo:hi])
+		if err := os.WriteFile(path, b, 0o644); err != nil {
+			fmt.Fprintln(os.Stderr, "chunk:", err)
+			os.Exit(3)
+		}
+		cmd := exec.Command(os.Args[0])
+		cmd.Env = append(os.Environ(), "C20_WORKER="+path)
+		var stderr bytes.Buffer
+		cmd.Stderr = &stderr
+		stdout, err := cmd.StdoutPipe()
+		if err != nil || cmd.Start() != nil {
+			fmt.Fprintln(os.Stderr, "worker start failed", err)
+			os.Exit(3)
+		}
+		sc := bufio.NewScanner(stdout)
+		sc.Buffer(make([]byte, 1<<20), 1<<26)
+		got := 0
+		tainted := false
+		for sc.Scan() {
+			var wo wireOutcome
+			if err := json.Unmarshal(sc.Bytes(), &wo); err != nil {
+				break
+			}
+			w := wo
+			results[lo+got] = ran{c: cases[lo+got], out: &w}
+			got++
+			if wo.Tainted {
+				tainted = true
+			}
+		}
+		werr := cmd.Wait()
+		os.Remove(path)
+		if got == hi-lo {
+			return
+		}
+		if !tainted {
+			// the worker died while running cases[lo+got]
+			tail := stderr.String()
+			if len(tail) > 1500 {
+				tail = tail[:1500]
+			}
+			results[lo+got] = ran{c: cases[lo+got], crashed: fmt.Sprintf("worker died (%v): %s", werr, tail)}
+			got++
+		}
+		lo += got
+	}
+}
+
 // ---------------------------------------------------------------- main
 
 func main() {
+	if p := os.Getenv("C20_WORKER"); p != "" {
+		workerMain(p)
+		return
+	}
 	fl := lib.ParseFlags()
 	res := lib.NewResult(rule)
-	verifhook.Set(hookCB)
 
 	var cases []*Case
 	if fl.Replay != "" {
@@ -847,15 +980,138 @@ func main() {
 			os.Exit(3)
 		}
 		var rp struct {
-			Case *Case `json:"case"`
+			Case json.RawMessage `json:"case"`
 		}
 		if err := json.Unmarshal(b, &rp); err != nil || rp.Case == nil {
 			fmt.Fprintln(os.Stderr, "replay: no case in file", err)
 			os.Exit(3)
 		}
-		cases = []*Case{rp.Case}
+		// a case is either a scenario or {case: scenario, trace: …} (a stored disagreement)
+		var c Case
+		var wrapped struct {
+			Case *Case `json:"case"`
+		}
+		if json.Unmarshal(rp.Case, &wrapped) == nil && wrapped.Case != nil {
+			c = *wrapped.Case
+		} else if err := json.Unmarshal(rp.Case, &c); err != nil {
+			fmt.Fprintln(os.Stderr, "replay: bad case", err)
+			os.Exit(3)
+		}
+		cases = []*Case{&c}
 	} else {
 		cases = genCases(fl.Tier, fl.Seed, fl.Search)
+	}
+	work := fl.Work
+	if work == "" {
+		work = os.TempDir()
+	}
+
+	results := make([]ran, len(cases))
+	nw := runtime.NumCPU()
+	if nw > 8 {
+		nw = 8
+	}
+	if nw > len(cases) {
+		nw = len(cases)
+	}
+	if nw < 1 {
+		nw = 1
+	}
+	var stop int32
+	var wg sync.WaitGroup
+	// interleaved assignment would balance better, but contiguous chunks keep restarts simple;
+	// chunks are small so that all workers stay busy
+	chunk := 64
+	next := int32(0)
+	nChunks := (len(cases) + chunk - 1) / chunk
+	for w := 0; w < nw; w++ {
+		wg.Add(1)
+		go func(w int) {
+			defer wg.Done()
+			for {
+				k := int(atomic.AddInt32(&next, 1)) - 1
+				if k >= nChunks {
+					return
+				}
+				lo, hi := k*chunk, (k+1)*chunk
+				if hi > len(cases) {
+					hi = len(cases)
+				}
+				runChunk(work, k, cases, results, lo, hi, &stop)
+				bad := 0
+				for _, r := range results[lo:hi] {
+					if r.crashed != "" || (r.out != nil && len(r.out.Viols) > 0) {
+						bad++
+					}
+				}
+				if bad > 0 && atomic.AddInt32(&stop, int32(bad)) > badLimit {
+					return
+				}
+			}
+		}(w)
+	}
+	wg.Wait()
+	if atomic.LoadInt32(&stop) > badLimit {
+		// enough failing scenarios: the rest of the budget is not spent
+		res.Note("stopped early: more than 40 scenarios violated a monitor")
+	}
+
+	var lines []string
+	var ranCases []ran
+	passes := map[string]int{}
+	for _, r := range results {
+		if r.c == nil {
+			continue // not run (stopped early)
+		}
+		c := r.c
+		if r.crashed != "" {
+			res.Count(c.key(), false)
+			res.Violate("pool-goroutine-panic", "the process died while this scenario ran: "+r.crashed, c)
+			continue
+		}
+		out := r.out
+		ranCases = append(ranCases, r)
+		lines = append(lines, out.Lines...)
+		res.Count(c.key(), out.SawLive && out.DoneAfter)
+		fam := c.Family
+		if i := strings.IndexByte(fam, ':'); i >= 0 {
+			fam = fam[:i]
+		}
+		res.Hit("family:" + fam)
+		res.Hit(fmt.Sprintf("initial:%d(ended:%d)", len(c.Init), len(c.Ended)))
+		for _, h := range out.Hits {
+			res.Hit(h)
+		}
+		for _, op := range c.Ops {
+			res.Hit("op:" + op.K)
+		}
+		for _, l := range out.Lines {
+			if strings.HasPrefix(l, "obs ") && strings.Contains(l, " park=1") {
+				res.Hit("parked:afterWait")
+			} else if strings.HasPrefix(l, "obs ") && strings.Contains(l, " park=2") {
+				res.Hit("parked:beforeCancel")
+			}
+			if strings.HasPrefix(l, "obs ") && strings.Contains(l, " done=1") {
+				res.Hit("obs:done")
+			} else if strings.HasPrefix(l, "obs ") {
+				res.Hit("obs:live")
+			}
+		}
+		for _, n := range out.Notes {
+			res.Note(n)
+		}
+		for _, v := range out.Viols {
+			res.Violate(v[0], v[1], c)
+		}
+		for k, v := range out.Passes {
+			passes[k] += v
+		}
+		if len(ranCases)%601 == 1 {
+			res.Sample(map[string]any{"case": c, "trace": out.Lines})
+		}
+	}
+	for k, v := range passes {
+		res.Distribution["hook-pass:"+k] = v
 	}
 
 	drv, err := lib.StartDrv(fl.Drv, "C20")
@@ -865,64 +1121,15 @@ func main() {
 	}
 	if drv == nil {
 		res.Note("model driver unavailable: monitors only")
-	}
-
-	type ran struct {
-		c   *Case
-		out *outcome
-	}
-	var all []ran
-	var lines []string
-	for _, c := range cases {
-		out := runCase(c)
-		all = append(all, ran{c, out})
-		lines = append(lines, out.lines...)
-		res.Count(c.key(), out.sawLive && out.doneAfter)
-		fam := c.Family
-		if i := strings.IndexByte(fam, ':'); i >= 0 {
-			res.Hit("family:" + fam[:i])
-		} else {
-			res.Hit("family:" + fam)
-		}
-		res.Hit(fmt.Sprintf("initial:%d(ended:%d)", len(c.Init), len(c.Ended)))
-		for _, h := range out.hits {
-			res.Hit(h)
-		}
-		for _, op := range c.Ops {
-			res.Hit("op:" + op.K)
-		}
-		for _, l := range out.lines {
-			if strings.HasPrefix(l, "obs ") && strings.Contains(l, " park=1") {
-				res.Hit("parked:afterWait")
-			} else if strings.HasPrefix(l, "obs ") && strings.Contains(l, " park=2") {
-				res.Hit("parked:beforeCancel")
-			}
-		}
-		for _, n := range out.notes {
-			res.Note(n)
-		}
-		for _, v := range out.viols {
-			res.Violate(v.id, v.what, c)
-		}
-		if len(res.Samples) < 8 && (len(all)%97 == 1) {
-			res.Sample(map[string]any{"case": c, "trace": out.lines})
-		}
-	}
-	tr.mu.Lock()
-	for k, v := range tr.passes {
-		res.Distribution["hook-pass:"+k] = v
-	}
-	tr.mu.Unlock()
-
-	if drv != nil {
+	} else {
 		answers, err := drv.AskBatch(lines)
 		if err != nil {
 			res.Disagree("trace-inclusion(kitdrv C20)", nil, "driver failed: "+err.Error(), "")
 		} else {
 			k := 0
-			for _, r := range all {
+			for _, r := range ranCases {
 				rejected := false
-				for i, l := range r.out.lines {
+				for i, l := range r.out.Lines {
 					a := answers[k]
 					k++
 					if rejected {
@@ -930,8 +1137,8 @@ func main() {
 					}
 					if !strings.HasPrefix(a, "ok") {
 						rejected = true
-						res.Disagree("trace-inclusion: observable trace of the real Pool must be accepted by Kit.Pool's state-set simulation",
-							map[string]any{"case": r.c, "trace": r.out.lines, "at_line": i}, a, l)
+						res.Disagree("trace-inclusion: the observable trace of the real Pool must be accepted by Kit.Pool's state-set simulation",
+							map[string]any{"case": r.c, "trace": r.out.Lines, "at_line": i}, a, l)
 					}
 				}
 				if !rejected {
